@@ -108,7 +108,7 @@ def generate(contract, source_root=None, extra_requires=None):
     out = []
     for i, v in enumerate(variants):
         if extra_requires:
-            v = dict(v, requires=list(v.get("requires", [])) + list(extra_requires))
+            v = dict(v, extra_requires=list(extra_requires))
         ex = Exec(contract, v, source_root=source_root)
         ex.run()
         out.append((v.get("name", f"v{i}") if contract.variants else "", ex))
